@@ -158,7 +158,8 @@ def run_tcp_server_session(case: dict) -> tuple[list[str], dict]:
     script = run.Script(case, log)
     incoming, t_end, chunks = run.build_incoming(case)
     be = MemBackend()
-    tr = be.transport(incoming, case.get("end", "eof"), t_end)
+    tr = run.SessionTransport(incoming, case.get("end", "eof"), t_end, be=be, after_close=case.get("after_close", "ebadf"))
+    log.probe = lambda: tr.nread
     listener = be.listen([tr])
     proto = sd.make_protocol(case["spec"], case["path"], bool(case.get("conv")))
     aux: dict[str, Any] = {"chunks": chunks, "incoming": incoming, "t_end": t_end}
@@ -198,6 +199,7 @@ def run_tcp_server_session(case: dict) -> tuple[list[str], dict]:
     aux["gens_started"] = script.gens_started
     aux["recv_log"] = tr.recv_log
     aux["recv_while_closed"] = tr.recv_while_closed
+    aux["read_marks"] = list(log.marks)
     aux["listener_closed"] = listener.closing
     aux["listen_calls"] = be.listen_calls
     return lines, aux
